@@ -324,6 +324,32 @@ impl VisitMut for Rw {
                     keep.push(Stmt::Expr(parse_quote!(while __i < #recv.len() { let #pat = &#recv[__i]; #body; __i += 1; }), None));
                     self.log.push("R7 iter().for_each -> index loop".into());
                 }
+                Stmt::Expr(Expr::MethodCall(m), Some(_)) if (m.method == "or_insert_with" || m.method == "or_insert") && m.args.len() == 1
+                    && matches!(&*m.receiver, Expr::MethodCall(e) if e.method == "entry" && e.args.len() == 1) => {
+                    // R31: `map.entry(K).or_insert_with(|| V);` / `.or_insert(V);` as a statement (the returned reference is
+                    // unused) -> its definition: insert V under K only if K is absent
+                    let e = if let Expr::MethodCall(e) = &*m.receiver { e.clone() } else { unreachable!() };
+                    let map = (*e.receiver).clone();
+                    let key = e.args[0].clone();
+                    let val: Expr = if m.method == "or_insert_with" {
+                        match &m.args[0] {
+                            Expr::Closure(c) if c.inputs.is_empty() => (*c.body).clone(),
+                            f => parse_quote!((#f)()),
+                        }
+                    } else {
+                        m.args[0].clone()
+                    };
+                    keep.push(parse_quote!(let __vx_key = #key;));
+                    let pure_place = { let t = map.to_token_stream().to_string(); !t.contains('(') };
+                    if pure_place {
+                        keep.push(Stmt::Expr(parse_quote!(if !#map.contains_key(&__vx_key) { #map.insert(__vx_key, #val); }), None));
+                    } else {
+                        // the receiver is itself a computed `&mut` map: evaluate it once
+                        keep.push(parse_quote!(let __vx_map = #map;));
+                        keep.push(Stmt::Expr(parse_quote!(if !__vx_map.contains_key(&__vx_key) { __vx_map.insert(__vx_key, #val); }), None));
+                    }
+                    self.log.push("R31 entry().or_insert* statement -> contains_key/insert".into());
+                }
                 Stmt::Expr(Expr::MethodCall(m), Some(_)) if m.method == "retain" && m.args.len() == 1 && matches!(&m.args[0], Expr::Closure(c) if c.inputs.len() == 2) => {
                     // R18: `map.retain(|k, v| BODY)`: closure conversion + retain's definition as a loop over a snapshot of
                     // the keys (each key present once, in an arbitrary order: the proof must hold for every order)
@@ -586,6 +612,37 @@ impl VisitMut for Rw {
                 w.body.stmts.insert(0, parse_quote!(__vx_loop!(#n);));
             }
             Expr::Loop(w) => {
+                self.loop_counter += 1;
+                let n = proc_macro2::Literal::usize_unsuffixed(self.loop_counter);
+                w.body.stmts.insert(0, parse_quote!(__vx_loop!(#n);));
+            }
+            Expr::ForLoop(w) if for_iter_shape(&w.expr).is_some() => {
+                // R7c: `for P in v.iter_mut()` / `.iter()` [`.enumerate()`] over a Vec/slice -> the same loop over the index range
+                // (the slice iterator's definition; the length is fixed while the iterator borrows the collection)
+                let (recv, mutable, enumerated) = for_iter_shape(&w.expr).unwrap();
+                let pat = (*w.pat).clone();
+                let (ipat, epat): (Option<Pat>, Pat) = if enumerated {
+                    match &pat {
+                        Pat::Tuple(t) if t.elems.len() == 2 => (Some(t.elems[0].clone()), t.elems[1].clone()),
+                        _ => (None, pat.clone()),
+                    }
+                } else {
+                    (None, pat.clone())
+                };
+                if enumerated && ipat.is_none() {
+                    self.unsupported.push("for .. in ..enumerate() with a non-tuple pattern".into());
+                }
+                let elem: Stmt = if mutable { parse_quote!(let #epat = &mut #recv[__vx_idx];) } else { parse_quote!(let #epat = &#recv[__vx_idx];) };
+                let mut stmts: Vec<Stmt> = Vec::new();
+                if let Some(ip) = ipat {
+                    stmts.push(parse_quote!(let #ip = __vx_idx;));
+                }
+                stmts.push(elem);
+                stmts.extend(w.body.stmts.drain(..));
+                w.body.stmts = stmts;
+                *w.pat = parse_quote!(__vx_idx);
+                *w.expr = parse_quote!(0..#recv.len());
+                self.log.push("R7c for over iter()/iter_mut() -> index range loop".into());
                 self.loop_counter += 1;
                 let n = proc_macro2::Literal::usize_unsuffixed(self.loop_counter);
                 w.body.stmts.insert(0, parse_quote!(__vx_loop!(#n);));
@@ -996,6 +1053,20 @@ fn stmt_has_foreign_await(st: &Stmt) -> bool {
     let mut f = F(false);
     syn::visit::Visit::visit_stmt(&mut f, st);
     f.0
+}
+
+/// `v.iter()`, `v.iter_mut()`, optionally followed by `.enumerate()`: (receiver, mutable, enumerated)
+fn for_iter_shape(e: &Expr) -> Option<(Expr, bool, bool)> {
+    let (inner, enumerated) = match e {
+        Expr::MethodCall(m) if m.method == "enumerate" && m.args.is_empty() => (&*m.receiver, true),
+        o => (o, false),
+    };
+    if let Expr::MethodCall(m) = inner {
+        if m.args.is_empty() && (m.method == "iter" || m.method == "iter_mut") {
+            return Some(((*m.receiver).clone(), m.method == "iter_mut", enumerated));
+        }
+    }
+    None
 }
 
 fn is_logging_call(c: &ExprCall) -> bool {
